@@ -60,6 +60,7 @@ LEGACY = {
               setbol="yy_set_bol(%d);", start="YYSTATE", atbol="(int) YY_AT_BOL()"),
 }
 _legacy = [False]
+_less_direct = [False]      # %array programs: yyless always gets the expression itself (the macro adjusts for text kept by yymore)
 
 
 def api(backend):
@@ -97,7 +98,11 @@ def action_c(rule_no, ops, backend, lineno_on, bol_obs):
             else:
                 n = "(%s > %d ? %s - %d : 0)" % (a['leng'], o[2], a['leng'], o[2])
             # (the argument is kept free of parentheses: the c99 action scanner cuts yyless(...) at the first ')')
-            out.append("{ int yn_ = %s; %s }" % (n, a['less'] % "yn_"))
+            if backend != 'c99' and (_less_direct[0] or (rule_no + len(out)) % 2 == 0):
+                # the manual's own idiom: the expression (it mentions yyleng) is the macro argument itself
+                out.append(a['less'] % n)
+            else:
+                out.append("{ int yn_ = %s; %s }" % (n, a['less'] % "yn_"))
         elif k == 'unput':
             for b in o[1]:
                 out.append(a['unput'] % b)
@@ -299,6 +304,7 @@ def make_stream_spec(prog, acts, eofs, rng, backend, lineno_on, extra_options=No
     defs = {}
     # every third program of the C back ends is written with the legacy spellings
     _legacy[0] = backend in LEGACY and (len(prog['rules']) + len(acts) + len(eofs)) % 3 == 0
+    _less_direct[0] = "array" in list(extra_options or [])
     bol_obs = any(r.get('bol') for r in prog['rules'])
     nrules = len(prog['rules'])
     opts = ["nounput" if not any(o[0] == 'unput' for ops in list(acts.values()) + list(eofs.values()) for o in ops) else "",
